@@ -181,3 +181,58 @@ def dims_fold_py(ops, dims, shape, memo):
             return v, memo
         memo = memo2
     return ACCEPT, memo
+
+
+# ---------------------------------------------------------------------------- concrete ShapeMatch (replay oracle)
+def broadcast_py(a, b):
+    """right-aligned broadcasting of two shapes; None if incompatible (own definition, not numpy's)."""
+    out = []
+    for i in range(1, max(len(a), len(b)) + 1):
+        x = a[-i] if i <= len(a) else 1
+        y = b[-i] if i <= len(b) else 1
+        if x == y or y == 1:
+            out.append(x)
+        elif x == 1:
+            out.append(y)
+        else:
+            return None
+    return tuple(reversed(out))
+
+
+def shape_match_py(ops, dims, iv, shape, sigma, nu):
+    """-> (verdict, sigma', nu') following the C01 statement; verdict codes as above."""
+    shape = tuple(shape)
+    n = len(dims)
+    if iv is None:
+        if len(shape) != n:
+            return REJECT, sigma, nu
+        v, s2 = dims_fold_py(ops, dims, shape, sigma)
+        return v, s2, nu
+    if len(shape) < n - 1:
+        return REJECT, sigma, nu
+    c = n - iv - 1
+    v, s1 = dims_fold_py(ops, dims[:iv], shape[:iv], sigma)
+    if v != ACCEPT:
+        return v, sigma, nu
+    if c:
+        v, s1 = dims_fold_py(ops, dims[iv + 1:], shape[len(shape) - c:], s1)
+        if v != ACCEPT:
+            return v, sigma, nu
+    mid = shape[iv:len(shape) - c]
+    d = dims[iv]
+    if d[0] == "_anonymous_variadic_dim":
+        return ACCEPT, s1, nu
+    _, name, b, tp = d
+    if tp and not ops.has_label():
+        return ANNOT, sigma, nu
+    key = (ops.label() + name) if tp else name
+    has_prev = key in nu
+    pb, P = nu.get(key, (False, ()))
+    bc = broadcast_py(mid, P) if has_prev else None
+    accept, store, nb, nshape = variadic_step(ops, b, mid, has_prev, pb, tuple(P), bc is not None, bc if bc is not None else ())
+    if not accept:
+        return REJECT, sigma, nu
+    nu2 = dict(nu)
+    if store:
+        nu2[key] = (nb, tuple(nshape))
+    return ACCEPT, s1, nu2
